@@ -56,6 +56,7 @@ type c13Env struct {
 	handle  func(ctx sdk.Context, msg sdk.Msg) error
 	auth    string
 	w       *CaseWriter
+	shapes  map[string]bool
 }
 
 var c13Assets = []string{"aaa", "aaab", "bbb"}
@@ -499,7 +500,11 @@ func (e *c13Env) checkpoint(ctx sdk.Context, view c13View, full bool, mism *int)
 		for limit := uint64(1); limit <= uint64(n+1); limit++ {
 			out = append(out, e.session(ctx, c.ep, c.otype, c.after, limit, c.reverse, c.keymode, r.Intn(3) == 0, count(c.ep)+3, mism))
 		}
-		e.w.Nontrivial(fmt.Sprintf("s/%v/%s/%d/%v/%v/%d", c.ep, c.otype, c.after, c.reverse, c.keymode, n))
+		shape := fmt.Sprintf("s/%v/%s/%d/%v/%v/%d", c.ep, c.otype, c.after, c.reverse, c.keymode, n)
+		if !e.shapes[shape] {
+			e.shapes[shape] = true
+			e.w.Count("distinct_session_shapes")
+		}
 	}
 	// boundary limits: 0 (= default 100 with count_total) in both modes, 2^64-1 following keys
 	ep := eps[r.Intn(len(eps))]
@@ -518,7 +523,7 @@ func TestC13(t *testing.T) {
 	r := newRand("C13")
 	w := NewCaseWriter("C13", "PV.Corr.C13", "check_all", 4)
 	app, baseCtx := newApp(t)
-	e := &c13Env{t: t, r: r, w: w, qs: keeper.NewQueryServer(app.ExchangeKeeper), admin: addrN(1), names: map[string]string{}, auth: app.ExchangeKeeper.GetAuthority()}
+	e := &c13Env{t: t, r: r, w: w, qs: keeper.NewQueryServer(app.ExchangeKeeper), admin: addrN(1), names: map[string]string{}, shapes: map[string]bool{}, auth: app.ExchangeKeeper.GetAuthority()}
 	e.owners = []sdk.AccAddress{addrN(2), addrN(3), addrN(4)}
 	e.names[e.admin.String()] = "AD"
 	for i, a := range e.owners {
@@ -623,7 +628,9 @@ func TestC13(t *testing.T) {
 		}
 		term := "(" + lets.String() + "CHist [\n  " + strings.Join(steps, ";\n  ") + "])%N"
 		w.Add(term, map[string]any{"history": hi, "steps": descOps, "open_orders_at_end": len(view.orders), "payments_at_end": len(view.pays)})
-		w.Nontrivial(fmt.Sprintf("h/%d/%d/%d/%d", hi, accepted, len(view.orders), len(view.pays)))
+		if accepted > 0 && len(view.orders)+len(view.pays) > 0 {
+			w.Nontrivial(strings.Join(descOps, "|"))
+		}
 		w.CountN("history_len_total", int64(nSteps))
 	}
 	w.Flush(t)
